@@ -22,6 +22,8 @@ ENC = {
     "aro2": ["c", "c", "1", "2", "3", "(", ")", "[cH-]", "[c-]", "p", "[o+]", "[c]", "b", "n"],
     "caps": ["C", "=C", "#C", "N", "=N", "O", "=O", "[N+]", "[O-]", "(", ")", "[CH2]", "F", "P", "S", "=S"],
     "aroring": ["c", "c", "n", "o", "1", "2", "-1", "-2", ":1", "=1", "(", ")", "[nH]", "s"],
+    "colon": ["C", ":C", "N", ":N", "1", ":1", "(", ")", "c", ":c", "=C", "2"],
+    "iso": ["[0C]", "[0CH3]", "[013C]", "[00C]", "[13CH4]", "C", "(", ")", "=O", "[0C@H]", "[2H]", "[0H]", "F"],
     "arocaps": ["c", "n", "o", "[nH]", "s", "1", "(", ")", "C", "=O", "N", "[n+]"],
     "hcaps": ["[NH4]", "[CH5]", "[OH3]", "[BH4]", "C", "N", "=O", ".", "(", ")", "[NH4+]", "[CH3]", "[SiH3]", "[OH2]"],
     "bad": ["C", "C", "1", "=1", "#1", "(", ")", "%", "[", "]", "=", ".", ":", "*", "c", "X", "[Xx]", "%1"],
@@ -204,6 +206,8 @@ def check_C03(tier):
     own = ("C03", "C02", "C14", "C06")      # strict acceptance of an over-capacity molecule also breaks the round trip
     q = 1 if quick else 0
     enc_gen_replay(rep, "aroring_default", ENC["aroring"], "default", n + 1 - q, quick=quick, own=own + ("C05",))
+    enc_gen_replay(rep, "colon_default", ENC["colon"], "default", n, quick=quick, own=own + ("C05",))
+    enc_gen_replay(rep, "iso_default", ENC["iso"], "default", n - 1, quick=quick, own=own + ("C10",))
     enc_gen_replay(rep, "hcaps_default", ENC["hcaps"], "default", n - 2, quick=quick, own=own)
     for alpha, tab, ml in [("chain", "default", n - q), ("ring", "default", n), ("bracket", "default", n - 1 - q),
                            ("ringbranch", "default", n + 2 - q), ("caps", "octet_rule", n - 1 - q), ("aro", "default", n - 1)]:
@@ -287,6 +291,7 @@ def check_C05(tier):
     enc_gen_replay(rep, "aro2_default", ENC["aro2"], "default", n - q, quick=quick, own=own)
     enc_gen_replay(rep, "aro_rings", ["c", "n", "1", "2", "(", ")", "o", "[nH]", "c"], "default", n + 2, quick=quick, own=own)
     enc_gen_replay(rep, "aroring_default", ENC["aroring"], "default", n + 1 - q, quick=quick, own=own + ("C03",))
+    enc_gen_replay(rep, "colon_default", ENC["colon"], "default", n, quick=quick, own=own + ("C03",))
     # order independence at scale: many atom orders of fused, bridged and cage systems
     rng = random.Random(seed() * 11 + 5)
     cages = []
@@ -554,6 +559,7 @@ def check_C10(tier):
     inv = ["OutInGrammar", "WellFormedOut", "ReencodeFixpoint", "TwoOutcomes"]
     enc_gen_replay(rep, "bracket_default", ENC["bracket"], "default", n - 1, quick=quick, own=own, invariants=inv)
     enc_gen_replay(rep, "hcaps_default", ENC["hcaps"], "default", n - 2, quick=quick, own=own, invariants=inv)
+    enc_gen_replay(rep, "iso_default", ENC["iso"], "default", n - 1, quick=quick, own=own, invariants=inv)
     enc_gen_replay(rep, "ring_marks", ["C", "/C", "\\C", "=C", "/1", "\\1", "1", "=1", "F", "(", ")", "/2", "2"], "default",
                    n, quick=quick, own=own, invariants=inv)
     rng = random.Random(seed() * 1021 + 10)
